@@ -240,6 +240,7 @@ def c15(ctx):
             rows += gen.twin_isolation(ctx.rng, kind, ctx.q(1500, 4000), to=to)
         rows += pair_battery(ctx, kind, to, ctx.q(40, 150))
         rows += gen.interference_battery(ctx.rng, kind, to, ctx.q(6, 40))
+        rows += gen.saturation_battery(ctx.rng, kind, to, base_id=3000)
     res, trace = run_script(ctx, rows, "twin-projection")
     rows = system_sweep(ctx, p14, "cc14", 0, 200) + system_sweep(ctx, ppn, "pn", 0, 200) \
         + system_sweep(ctx, ppoll, "poll", 2, ctx.q(150, 1000))
